@@ -76,11 +76,17 @@ type Finding struct {
 }
 
 func (f *Finding) explains(kind string) bool {
-	if f.Kind == kind {
+	m := func(pat string) bool {
+		if strings.HasSuffix(pat, "*") {
+			return strings.HasPrefix(kind, strings.TrimSuffix(pat, "*"))
+		}
+		return pat == kind
+	}
+	if m(f.Kind) {
 		return true
 	}
 	for _, k := range f.Kinds {
-		if k == kind {
+		if m(k) {
 			return true
 		}
 	}
